@@ -139,9 +139,6 @@ class MyFloat(float):
 class Unhashable:
     __hash__ = None
 
-    def __eq__(self, other):
-        return self is other
-
 
 class Opaque:
     def __init__(self, tag):
@@ -1610,7 +1607,8 @@ def run(ctx: Ctx):
     suite_literals(ctx, drv, fixed_zoo())
     suite_literals(ctx, drv, [rand_value(rng, rng.choice([1, 2, 3, 4])) for _ in range(ctx.budget(4000, 60000))])
     suite_factories(ctx, drv)
-    suite_e2e_defaults(ctx, drv, default_cases(rng, ctx.budget(150, 4000)), ctx.budget(3, 5))
+    suite_e2e_defaults(ctx, drv, default_cases(rng, 0), 5)          # the whole zoo on every model kind
+    suite_e2e_defaults(ctx, drv, [("value", rand_value(rng, 3)) for _ in range(ctx.budget(150, 4000))], ctx.budget(3, 5))
     # constructor call (the public model kinds first, so that a reported failing input is a public-API one)
     suite_kinds(ctx, drv, ctx.budget(420, 8000))
     max_n = 4 if thorough else 3
